@@ -19,6 +19,12 @@ Effects the translator may emit (`Eff`):
 * `setInsert S`   — `S[x] = true` for arbitrary `x`; `S` is not read in the body;
 * `sharedConst T` — a loop-invariant constant stored in a shared cell.
 
+* `firstPayload x` — the body is `x = payload(entry); break`: the loop takes the payload of whichever
+                    entry comes first ("any hit with equal payload"). Order-insensitive exactly when all
+                    entries carry the same payload (`findSome?_perm_invariant_iff`); that is a hypothesis
+                    about the data (`PayloadsAgree`), for the anchor probe of diffConfig the regenerated
+                    table fact `anchor_table_agrees`.
+
 Other body forms: `collectSorted` (only `out = append(out, …)`, the statement after the loop
 sorts `out`), `anyHit` (no effect; leaves to an outer label on the first hit), `opaque` (the
 translator cannot describe the body: early exit with a result, writes through shared pointers,
@@ -38,6 +44,7 @@ inductive Body
   | effects (l : List Eff)
   | collectSorted (slice : String)
   | anyHit
+  | firstPayload (target : String)
   | «opaque» (why : String)
   deriving DecidableEq, Repr
 
@@ -133,6 +140,7 @@ structure PState (K V C : Type) where
   cells : Cells K V
   slices : String → List String
   hits : String → Bool
+  results : String → Option String
   ctl : C
 
 /-- What a collect-then-sort / any-hit body computes per entry, uninterpreted. -/
@@ -140,6 +148,7 @@ structure Sem2 (K : Type) where
   keep : Entry K → Bool
   msg : Entry K → String
   hit : Entry K → Bool
+  payload : Entry K → String
 
 /-- The effect of running a *described* body over the entries in the order `es`. -/
 def runBody {K V C : Type} [DecidableEq K] (site : String) (b : Body) (sem : Sem K V) (sem2 : Sem2 K)
@@ -150,6 +159,14 @@ def runBody {K V C : Type} [DecidableEq K] (site : String) (b : Body) (sem : Sem
     { p with slices := fun m => if m = n then collectSorted strLe sem2.keep sem2.msg (p.slices n) es else p.slices m }
   | .anyHit =>
     { p with hits := fun m => if m = site then (firstIn (fun e => if sem2.hit e then some () else none) es).isSome else p.hits m }
+  | .firstPayload t =>
+    match es with
+    | [] => p
+    | e :: _ => { p with results := fun m => if m = t then some (sem2.payload e) else p.results m }
   | .opaque _ => p
+
+/-- Data hypothesis of a `firstPayload` body: all entries carry the same payload. -/
+def PayloadsAgree {K : Type} (b : Body) (sem2 : Sem2 K) (es : List (Entry K)) : Prop :=
+  ∀ t, b = .firstPayload t → ∀ a, a ∈ es → ∀ a', a' ∈ es → sem2.payload a = sem2.payload a'
 
 end NA.C16.D
